@@ -59,8 +59,11 @@ def streaming(R, thorough):
         for a in ("sha256", "sha512", "blake2b"):
             out = R.path("mp", "big-%s-%s.ndjson" % (variant, a))
             big.append((variant, a, out, exe))
+    nbig = len(big)
+    for a in (("sha256", "sha512", "blake2b") if thorough else ("sha512", "blake2b")):        # 4 GiB + 1 MiB, sparse
+        big.append(("native", a, R.path("mp", "huge-%s.ndjson" % a), R.cc("mp_driver", ["mp_driver.c"], "native")))
     with ThreadPoolExecutor(max_workers=6) as ex:
-        list(ex.map(lambda m: R.run([m[3], str(R.seed), m[1], "513", m[2], "big"], ok_codes=(0, 70), timeout=1200), big))
+        list(ex.map(lambda im: R.run([im[1][3], str(R.seed), im[1][1], "513", im[1][2], "big" if im[0] < nbig else "huge"], ok_codes=(0, 70), timeout=1800), list(enumerate(big))))
         bres = list(ex.map(lambda m: R.tlc("sys/TraceStreamCounter.tla", "TraceStreamCounter_%s.cfg" % m[1], env={"TRACE": m[2]}, timeout=900, heap="2g",
                                            tag="sc-%s-%s" % (m[0], m[1])), big))
     for (variant, a, out, _), tr in zip(big, bres):
@@ -73,7 +76,7 @@ def streaming(R, thorough):
                         % (a, variant, (evs[k - 1] if 0 < k <= len(evs) else tr.tail(8))[:300]),
                         {"alg": a, "variant": variant, "events": evs[max(0, k - 4):k + 1]}, name="longstream")
     R.cov["streaming_model"] = {"module": "Streaming", "distinct": st, "generated": gen, "broken_variants_rejected": 2,
-                                "trace_events_validated": lines, "algorithms": MP_ALGS, "long_streams": "513 MiB in 1 MiB updates, SHA-256 / SHA-512 / BLAKE2b"}
+                                "trace_events_validated": lines, "algorithms": MP_ALGS, "long_streams": "513 MiB in 1 MiB updates and 4 GiB + 1 MiB in 1 GiB updates (sparse), SHA-256 / SHA-512 / BLAKE2b"}
     return lines
 
 
